@@ -6,6 +6,7 @@ import (
 	"os"
 	"sort"
 	"strconv"
+	"strings"
 	"time"
 )
 
@@ -106,6 +107,68 @@ func run(prop, tier, repo, verif, tags string, seed int, start time.Time) (code 
 }
 
 func init() {
+	debugHooks["fnbuilds"] = func(w *World) {
+		w.Census()
+		fb, br, err := w.functionBuilds()
+		if err != nil {
+			fmt.Println(err)
+			return
+		}
+		fmt.Println("names:", br.Names)
+		var keys []fnBuildKey
+		for k := range fb {
+			keys = append(keys, k)
+		}
+		sort.Slice(keys, func(i, j int) bool {
+			if keys[i].Name != keys[j].Name {
+				return keys[i].Name < keys[j].Name
+			}
+			return keys[i].N < keys[j].N
+		})
+		for _, k := range keys {
+			for _, o := range fb[k] {
+				var cs []string
+				for _, c := range o.Calls {
+					var as []string
+					for _, a := range c.Args {
+						as = append(as, a.String())
+					}
+					cs = append(cs, c.Fn.Name()+"("+strings.Join(as, ",")+")")
+				}
+				fmt.Printf("%s/%d acc=%v rej=%v nilnil=%v unk=%v panic=%v res=%s calls=%v\n", k.Name, k.N, o.Accepted, o.Rejected, o.NilNil, o.Unknown, o.Panicked, o.Result.String(), cs)
+			}
+		}
+	}
+	debugHooks["opbuilds"] = func(w *World) {
+		w.Census()
+		ob, br, err := w.operatorBuilds()
+		if err != nil {
+			fmt.Println(err)
+			return
+		}
+		fmt.Println("ops:", br.Ops)
+		for _, op := range append(br.Ops, unknownOperator) {
+			for _, o := range ob[op] {
+				fmt.Printf("%s acc=%v rej=%v nilnil=%v unk=%v res=%s\n", op, o.Accepted, o.Rejected, o.NilNil, o.Unknown, w.describeResult(o))
+			}
+		}
+		ab, br, err := w.axisBuildsAI()
+		if err != nil {
+			fmt.Println(err)
+			return
+		}
+		fmt.Println("axes:", br.Axes)
+		var keys []string
+		for k := range ab {
+			keys = append(keys, k)
+		}
+		sort.Strings(keys)
+		for _, k := range keys {
+			for _, o := range ab[k] {
+				fmt.Printf("%s acc=%v rej=%v nilnil=%v unk=%v res=%s\n", k, o.Accepted, o.Rejected, o.NilNil, o.Unknown, w.describeResult(o))
+			}
+		}
+	}
 	debugHooks["scan"] = func(w *World) {
 		g, err := w.grammar()
 		if err != nil {
